@@ -333,11 +333,8 @@ func (s String) RemoveSuffix(other Value) (String, Value) {
 	switch other.ValueFlag() {
 	case CHAR_FLAG:
 		o := other.AsChar()
-		r, rLen := utf8.DecodeLastRuneInString(string(s))
-		if len(s) > 0 && r == rune(o) {
-			return s[0 : len(s)-rLen], Undefined
-		}
-		return s, Undefined
+		result, _ := strings.CutSuffix(string(s), string(rune(o)))
+		return String(result), Undefined
 	default:
 		return "", Ref(NewCoerceError(s.Class(), other.Class()))
 	}
